@@ -256,6 +256,12 @@ def graph_walk(gwy, max_zones):
                 seen_act[a.id] = (tcs.id, z.idx)
             if len(set(id(a) for a in z.actuators)) != len(z.actuators):
                 bad.append(("actuator-listed-twice", f"{tcs.id}/{z.idx}"))
+    # "one zone / role": a device attached to a heating zone is there AS something -- its sensor or one of its actuators
+    for tcs in gwy.systems:
+        for z in tcs.zones:
+            for ch in getattr(z, "childs", []):
+                if ch is not z.sensor and ch not in z.actuators:
+                    bad.append(("zone-child-without-a-role", f"{getattr(ch, 'id', ch)} is attached to {tcs.id}/{z.idx} but is neither its sensor ({getattr(z.sensor, 'id', None)}) nor one of its actuators"))
     parents = [t for t in gwy.systems] + [z for t in gwy.systems for z in t.zones] + [t.dhw for t in gwy.systems if t.dhw]
     for par in parents:
         for ch in getattr(par, "childs", []):
@@ -465,6 +471,13 @@ def run(ctx: Ctx) -> None:
                    f"{t0}01.000000 045 RP --- 01:145038 18:111111 --:------ 000C 012 010800100002010800100001",  # zone 01 (new): 04:000002, then zone 00's TRV: refused
                    f"{t0}02.000000 045 RP --- 01:145038 18:111111 --:------ 000C 006 010800100002",           # zone 01: 04:000002 again
                    f"{t0}03.000000 045  I --- 01:145038 --:------ 01:145038 30C9 003 0107D0"], "crafted-zone-created-by-a-refused-message", "crafted", {}))
+    # a zone's sensor is named, then the controller answers the same question with "no device" (7F FFFFFF), then names ANOTHER sensor: whatever the
+    # library makes of it, both sides of every link agree and the schema it reports reloads to the same device-to-zone map
+    hists.append(([f"{t0}00.000000 045 RP --- 01:145038 18:111111 --:------ 0005 004 00080200",             # zone 01: a radiator-valve zone
+                   f"{t0}01.000000 045 RP --- 01:145038 18:111111 --:------ 000C 006 010400100001",           # zone 01 sensor: 04:000001
+                   f"{t0}02.000000 045 RP --- 01:145038 18:111111 --:------ 000C 006 01047FFFFFFF",           # ... "no device"
+                   f"{t0}03.000000 045 RP --- 01:145038 18:111111 --:------ 000C 006 010400100002",           # ... now 04:000002
+                   f"{t0}04.000000 045  I --- 01:145038 --:------ 01:145038 30C9 003 0107D0"], "crafted-sensor-after-an-empty-reply", "crafted", {}))
     hists += [(base, "verbatim", name, cfg) for name, base, cfg in syss]
     for lines, kind, name, cfg in hists:
         eav = rng.random() < 0.5 if not kind.startswith("crafted") else False
